@@ -13,13 +13,15 @@ func vBuildPersisted(cs *clientState) {
 	vCmd(cs, "RPUSH", "lst", "a", vStringN("le", 1), "c")
 	vCmd(cs, "HSET", "hsh", "f1", vStringN("hv", 1), "f2", "w")
 	vCmd(cs, "SADD", "set", "m1", "m2")
+	// the empty key name is a key name like any other
+	vCmd(cs, "RPUSH", "", "x", "y")
 	if vBool("ttl") {
 		vCmd(cs, "PEXPIREAT", "lst", vItoa(vT0+500)+"123")
 		vCmd(cs, "EXPIRE", "str", "1000")
 	}
 }
 
-var vPersistKeys = []string{"str", "lst", "hsh", "set", "new"}
+var vPersistKeys = []string{"str", "lst", "hsh", "set", "new", ""}
 
 func vSnapAll(cs *clientState) []vKeySnap {
 	out := make([]vKeySnap, len(vPersistKeys))
